@@ -31,6 +31,21 @@ func (c *CertificateChain) AddCertificateChainEntry(entry *CertificateChainEntry
 type CertificateChainEntry struct {
 	RawCertificate []byte
 	Certificate    *x509.Certificate
+	// EndEntity marks the leaf of a verified chain: it is the certificate being checked, never an issuer of CRLs
+	EndEntity bool
+}
+
+// IsEntitledCRLSigner tells if a crl which verifies under the key of this certificate may be trusted:
+// the end-entity certificate of a chain is never entitled, and if the key usage extension
+// is present it has to permit crl signing (RFC 5280 section 4.2.1.3)
+func (e *CertificateChainEntry) IsEntitledCRLSigner() bool {
+	if e.EndEntity {
+		return false
+	}
+	if e.Certificate.KeyUsage != 0 && e.Certificate.KeyUsage&x509.KeyUsageCRLSign == 0 {
+		return false
+	}
+	return true
 }
 
 func NewCertificateChains(verifiedChains [][]*x509.Certificate, trustedSignerCerts []*x509.Certificate) *CertificateChains {
@@ -41,10 +56,11 @@ func NewCertificateChains(verifiedChains [][]*x509.Certificate, trustedSignerCer
 		chain := &CertificateChain{
 			CertificateChainEntryList: make([]CertificateChainEntry, 0),
 		}
-		for _, verifiedChainEntry := range verifiedChain {
+		for index, verifiedChainEntry := range verifiedChain {
 			entry := CertificateChainEntry{
 				RawCertificate: verifiedChainEntry.Raw,
 				Certificate:    verifiedChainEntry,
+				EndEntity:      index == 0,
 			}
 			chain.AddCertificateChainEntry(&entry)
 		}
